@@ -17,6 +17,8 @@ DECIDED = ('(a) in the 206 branch Content-Range, Content-Length and the argument
            'full response carries os.stat(<checked name>).st_size; (e) the 304 response is returned before the file is '
            'opened and carries no body, HEAD gets an empty body; (f) the If-Modified-Since value reaching the comparison '
            'is None or a parsed number, and it is compared with the whole-second modification time.')
+DECIDED_MORE = ('Also: every file-delivering answer is dominated by the Range-header test; no naive datetime.timestamp() in parse_date.')
+DECIDED = DECIDED + ' ' + DECIDED_MORE
 NOT_DECIDED = ('RFC 7233 arithmetic for every header string (integer semantics of the parser over all strings, e.g. multiple '
                'ranges, whitespace, huge numbers); equality of delivered bytes with the file slice at run time.')
 ASSUMPTIONS = ['file.read(n) returns at most n bytes', 'email.utils.formatdate emits whole seconds']
